@@ -116,6 +116,17 @@ def gen_cases(ctx, rounds, maxdim):
                 meta = {'m': m, 'n': n, 'rank': 0, 'rcond': RCOND[p], 'A': Z, 'b': bf, 'sig': [], 'zero': True}
                 add('SVD', p, 'SVD %s %d %d %s %s %s' % (p, m, n, hexf(RCOND[p]), H(Z), H(bf)), dict(meta))
                 add('QTZ', p, 'QTZ %s %d %d %s %s %s' % (p, m, n, hexf(RCOND[p]), H(Z), H(bf)), dict(meta))
+    # regression inputs for the repaired defects, present in every run: m x 1 matrices (numerical rank 1: getRCondEstimate must be 1),
+    # a rank-1 square matrix, a 2x2 complex system through FactorQTZ
+    for p in ('d', 'f', 'z', 'c'):
+        cx = is_cx(p)
+        for (m, n, rank) in ((3, 1, 1), (1, 1, 1), (3, 3, 1), (2, 2, 2)):
+            sig = [1.5, 0.75][:rank]
+            A = with_spectrum(r, m, n, sig, cx); b = vec(m, cx)
+            Af = roundp(flat(A, cx), p); bf = roundp(vflat(b, cx), p)
+            meta = {'m': m, 'n': n, 'rank': rank, 'rcond': RCOND[p], 'A': Af, 'b': bf, 'sig': sig}
+            add('SVD', p, 'SVD %s %d %d %s %s %s' % (p, m, n, hexf(RCOND[p]), H(Af), H(bf)), dict(meta))
+            add('QTZ', p, 'QTZ %s %d %d %s %s %s' % (p, m, n, hexf(RCOND[p]), H(Af), H(bf)), dict(meta))
     # LU of matrices that need no row exchange (strictly column-diagonally-dominant): getL * getU must reproduce A
     for p in ('d', 'f'):
         for q in (2, 3, 5):
@@ -197,8 +208,8 @@ def certificate(ctx, exe, drv, rounds, maxdim):
         hist[kind + '/' + p] = hist.get(kind + '/' + p, 0) + 1
         st, head, secs = parse(out, cx)
         if st != 'OK':
-            # FactorQTZ::solve passes trans='T' to the complex ?unmqr/?unmrz routines, which accept only 'N' and 'C' (known finding)
-            prob(ix, 'qtz-complex-solve' if (kind == 'QTZ' and cx and 'unm' in out) else 'exception', out[:200]); continue
+            # (regression: before fix 4c685664 FactorQTZ::solve threw for every complex matrix -- trans='T' handed to ?unmqr/?unmrz)
+            prob(ix, 'exception', out[:200]); continue
         if kind == 'SVD':
             m, n, rank = me['m'], me['n'], me['rank']; k = min(m, n)
             # certificates on the solution x divide by the smallest non-zero singular value: their tolerance grows with 1/sigma_min
@@ -237,8 +248,10 @@ def certificate(ctx, exe, drv, rounds, maxdim):
             exact['rank_checks'] += 1
             if int(head[0]) != rank: prob(ix, 'qtz-rank', 'getRank = %s, prescribed rank %d' % (head[0], rank))
             if me.get('zero'):
-                # minimum-norm least-squares solution of the zero matrix is x = 0
-                if any(v != 0 for v in RV(x)): prob(ix, 'qtz-zero-matrix', 'FactorQTZ::solve on the %dx%d zero matrix returned x = %s (expected 0)' % (m, n, RV(x)))
+                # minimum-norm least-squares solution of the zero matrix is x = 0, exactly, for the vector and the matrix right-hand side
+                # (regression: before fix 1ce33455 doSolve returned uninitialised memory at rank 0)
+                got0 = RV(x) + [v for row in X for v in RV(row)]
+                if len(x) != n or any(v != 0 for v in got0): prob(ix, 'qtz-zero-matrix', 'FactorQTZ::solve on the %dx%d zero matrix returned x = %s, X = %s (expected 0)' % (m, n, RV(x), X))
                 continue
             dm, dn = dims(A)
             C.add('NORMAL %d %d %s %s %s %s' % (dm, dn, T, H(R(A)), H(RV(x)), H(RV(b))), ix, 'qtz-x-normal', tol=tol)
@@ -252,8 +265,8 @@ def certificate(ctx, exe, drv, rounds, maxdim):
             if sv and rank >= 1:
                 true = sv[1][rank - 1] / sv[1][0]
                 if not (true / 20 <= est <= true * 20):
-                    # at numerical rank 1 the estimate is never assigned (it keeps its initial 0): known finding
-                    prob(ix, 'qtz-rcond-rank1' if (rank == 1 and est == 0.0) else 'qtz-rcond-estimate', 'getRCondEstimate %g vs sigma_r/sigma_1 %g (rank %d)' % (est, true, rank))
+                    # (regression: before fix 1ce33455 the estimate stayed 0 at numerical rank 1; it must be 1 there)
+                    prob(ix, 'qtz-rcond-estimate', 'getRCondEstimate %g vs sigma_r/sigma_1 %g (rank %d)' % (est, true, rank))
             if len(secs) > 2:
                 inv = sec_mat(secs[2], cx); C.add('INV %d %s %s %s' % (dm, hexf(10 * tol), H(R(A)), H(R(inv))), ix, 'qtz-inverse', tol=10 * tol)
         elif kind == 'LU':
@@ -314,18 +327,18 @@ def certificate(ctx, exe, drv, rounds, maxdim):
         'measured_max_residual_over_tolerance': dict(sorted(worst.items())), 'input_distribution': dict(sorted(hist.items()))}
     ctx.trusted.add('certificate harness: harness/C24_probe.cpp outputs fed to the extracted checkers (ocaml/C24_drv.ml, double NumOps; binary32 emulated for the float rank count); '
                     'absolute tolerance %g (double) / %g (float) for O(1)-scaled inputs; LAPACK itself is NOT verified' % (TOL['d'], TOL['f']))
-    # crash witness in a process of its own: Eigen on a complex<double> matrix with a default-constructed result matrix
-    zc = [c for c in cases if c[1]['kind'] == 'EIG' and c[1]['p'] == 'z' and c[1]['n'] >= 2][:1]
-    if zc:
-        raw = zc[0][0].replace('EIG', 'EIGRAW', 1)
+    # regression for fix f8bea54f, in a process of its own (it used to die with SIGSEGV): Eigen on a complex<double> matrix with a
+    # default-constructed result matrix must give exactly what it gives with a pre-sized one
+    zc = [(c, o) for c, o in zip(cases, outs) if c[1]['kind'] == 'EIG' and c[1]['p'] == 'z' and c[1]['n'] >= 2][:2]
+    for c, o_pre in zc:
+        raw = c[0].replace('EIG', 'EIGRAW', 1)
         rc, o, e = sh([exe], input=raw + '\n', timeout=120)
-        ctx.extra['correspondence']['certificate']['eigen_complex_double_raw'] = 'rc=%s %s' % (rc, o.strip()[:40])
-        if rc != 0 or not o.startswith('OK'):
+        ctx.extra['correspondence']['certificate']['eigen_complex_double_default_constructed_result'] = 'rc=%s, equal to the pre-sized run: %s' % (rc, o.strip() == o_pre.strip())
+        if rc != 0 or o.strip() != o_pre.strip():
             cases.append((raw, {'kind': 'EIGRAW', 'p': 'z'})); lines.append(raw); outs.append('process ended with rc=%s (signal %s) %s' % (rc, -rc if rc < 0 else 0, o.strip()[:80]))
             problems.append((len(cases) - 1, 'eigen-complex-double-raw', 'Eigen::getAllEigenValuesAndVectors on a Matrix_<complex<double>> with a default-constructed vectors argument: ' + outs[-1]))
-    KNOWN_MAP = {'qtz-zero-matrix': 'qtz-zero-matrix-solve-uninitialised', 'lu-getL-getU': 'lu-getL-getU-wrong-triangles',
-                 'qtz-complex-solve': 'qtz-complex-solve-illegal-lapack-trans', 'eigen-complex-double-raw': 'eigen-complex-double-vectors-not-resized',
-                 'qtz-rcond-rank1': 'qtz-rcond-estimate-zero-at-rank-1', 'eig-sym-ascending': 'eigen-symmetric-not-ordered'}
+    # the one remaining known finding: geev does not order the eigenvalues of symmetric input (symmetric path commented out in Eigen.cpp)
+    KNOWN_MAP = {'eig-sym-ascending': 'eigen-symmetric-not-ordered'}
     seen = set()
     for ix, what, detail in problems:
         me = cases[ix][1]
